@@ -272,3 +272,34 @@ def impl_env():
     env['PYTHONHASHSEED'] = '0'
     env['PYTHONDONTWRITEBYTECODE'] = '1'
     return env
+
+
+class debug_logging:
+    """the library's frame logging switched on (level DEBUG on its logger, records into a null handler) for the duration of a
+    block; the harness silences logging globally, which is lifted here and put back afterwards"""
+
+    def __init__(self, on=True):
+        self.on = on
+
+    def __enter__(self):
+        if not self.on:
+            return self
+        import logging
+        lg = logging.getLogger('pyrsocket')
+        self._old = (lg.level, lg.propagate, logging.root.manager.disable)
+        logging.disable(logging.NOTSET)
+        lg.setLevel(logging.DEBUG)
+        lg.propagate = False
+        if not any(isinstance(h, logging.NullHandler) for h in lg.handlers):
+            lg.addHandler(logging.NullHandler())
+        return self
+
+    def __exit__(self, *a):
+        if not self.on:
+            return False
+        import logging
+        lg = logging.getLogger('pyrsocket')
+        lg.setLevel(self._old[0])
+        lg.propagate = self._old[1]
+        logging.disable(self._old[2])
+        return False
